@@ -875,6 +875,54 @@ impl Gen {
     }
 }
 
+impl Gen {
+    /// Conditional constructs whose condition is a short-circuit expression over one
+    /// representative of every bool-valued operator (comparisons, negation, is Some/None, …).
+    pub fn cond_bodies(&self) -> Vec<(Ty, Vec<Stmt>)> {
+        let reps = self.reps1().remove(&Ty::Bool).unwrap_or_default();
+        let x = || Expr::Var("x".into());
+        let mut out = Vec::new();
+        for op in [Bin::And, Bin::Or] {
+            for a in &reps {
+                for b in &reps {
+                    let c = Expr::Bin(op, bx(a.clone()), bx(b.clone()));
+                    out.push((Ty::Int, vec![Stmt::If(vec![(c.clone(), vec![Stmt::Return(x())])], None), Stmt::Return(Expr::Int(1))]));
+                    out.push((
+                        Ty::Int,
+                        vec![Stmt::If(vec![(c.clone(), vec![Stmt::Return(x())])], Some(vec![Stmt::Return(Expr::Int(1))]))],
+                    ));
+                    out.push((
+                        Ty::Int,
+                        vec![Stmt::If(
+                            vec![(Expr::Var("c".into()), vec![Stmt::Return(Expr::Int(-1))]), (c.clone(), vec![Stmt::Return(x())])],
+                            Some(vec![Stmt::Return(Expr::Int(1))]),
+                        )],
+                    ));
+                    out.push((Ty::Int, vec![Stmt::Check(c.clone(), Expr::Ret(bx(x()))), Stmt::Return(Expr::Int(1))]));
+                    // the conditional nested in an operand position (stack discipline around it)
+                    out.push((
+                        Ty::Int,
+                        vec![Stmt::Return(Expr::Builtin(
+                            Builtin::SatAdd,
+                            bx(Expr::Var("y".into())),
+                            bx(Expr::If(bx(c.clone()), bx(Expr::Int(1)), bx(Expr::Int(0)))),
+                        ))],
+                    ));
+                    out.push((
+                        Ty::Int,
+                        vec![
+                            Stmt::Let("w0".into(), Expr::Var("y".into())),
+                            Stmt::If(vec![(c.clone(), vec![Stmt::Let("w1".into(), x())])], Some(vec![Stmt::Let("w2".into(), Expr::Int(1))])),
+                            Stmt::Return(Expr::Var("w0".into())),
+                        ],
+                    ));
+                }
+            }
+        }
+        out
+    }
+}
+
 /// Wrap an expression as `return e`.
 pub fn ret_body(e: Expr) -> Vec<Stmt> {
     vec![Stmt::Return(e)]
